@@ -470,8 +470,9 @@ func (r *run) step(i int, sym string, parkThis bool) {
 				skip = true
 				break
 			}
-			if !m.flushOnce && m.writeHeld {
-				// the first receive flushes, which needs the write lock
+			if !m.flushOnce && m.writeHeld && !m.sendSet {
+				// the first receive flushes, which needs the write lock (once the send side
+				// has ended there is nothing of this stream left to flush and it does not)
 				if m.writeWaiter != nil {
 					skip = true
 					break
